@@ -1697,8 +1697,10 @@ class Cell(Bucket):
                     assert app.server in servers
                     assert app.has_identity()
                     servers[app.server].remove(app.name)
-                    app.release_identity()
 
+                # The app may have been evicted earlier in this cycle, it
+                # still holds its identity then.
+                app.release_identity()
                 continue
 
             restore = {}
